@@ -86,6 +86,11 @@ type pEnd struct {
 	W int  `json:"w"`
 	R bool `json:"r"`
 	T int  `json:"t"`
+	// identities: the link object, the node object at its far end (the source of an input link, the target of an output link)
+	// and its trait object
+	C  int `json:"c"`
+	Ec int `json:"ec"`
+	Tc int `json:"tc"`
 }
 type pMod struct {
 	Inn  int    `json:"inn"`
@@ -98,6 +103,7 @@ type pMod struct {
 	Outs []pEnd `json:"outs"`
 	C    int    `json:"c"`
 	Nc   int    `json:"nc"`
+	Ntc  int    `json:"ntc"` // the control node's trait object
 }
 type pGenome struct {
 	Id              int      `json:"id"`
@@ -165,12 +171,14 @@ func (in *interner) genome(g *genetics.Genome) pGenome {
 	for _, cg := range g.ControlGenes {
 		cn := cg.ControlNode
 		pm := pMod{Inn: int(cg.InnovationNum), Mut: in.f(cg.MutationNum), En: cg.IsEnabled, Nid: cn.Id, Act: int(cn.ActivationType),
-			Tr: traitId(cn.Trait), Ins: []pEnd{}, Outs: []pEnd{}, C: in.p(cg, false), Nc: in.p(cn, false)}
+			Tr: traitId(cn.Trait), Ins: []pEnd{}, Outs: []pEnd{}, C: in.p(cg, false), Nc: in.p(cn, false), Ntc: in.p(cn.Trait, cn.Trait == nil)}
 		for _, l := range cn.Incoming {
-			pm.Ins = append(pm.Ins, pEnd{N: l.InNode.Id, W: in.f(l.ConnectionWeight), R: l.IsRecurrent, T: traitId(l.Trait)})
+			pm.Ins = append(pm.Ins, pEnd{N: l.InNode.Id, W: in.f(l.ConnectionWeight), R: l.IsRecurrent, T: traitId(l.Trait),
+				C: in.p(l, false), Ec: in.p(l.InNode, false), Tc: in.p(l.Trait, l.Trait == nil)})
 		}
 		for _, l := range cn.Outgoing {
-			pm.Outs = append(pm.Outs, pEnd{N: l.OutNode.Id, W: in.f(l.ConnectionWeight), R: l.IsRecurrent, T: traitId(l.Trait)})
+			pm.Outs = append(pm.Outs, pEnd{N: l.OutNode.Id, W: in.f(l.ConnectionWeight), R: l.IsRecurrent, T: traitId(l.Trait),
+				C: in.p(l, false), Ec: in.p(l.OutNode, false), Tc: in.p(l.Trait, l.Trait == nil)})
 		}
 		r.Mods = append(r.Mods, pm)
 	}
